@@ -881,6 +881,13 @@ func (w *World) mapFind(fr *frame, m *Map, k Value) int {
 		if eq == w.tt.F {
 			continue
 		}
+		if w.hashDerived(ents[i].k) && w.hashDerived(k) {
+			// random-oracle idealisation: two values derived from hash/cipher outputs (no free
+			// input bits outside hash arguments) are equal only if derived identically
+			w.res.Cuts["hash-derived map keys: collisions between differently derived values excluded"]++
+			w.assumeNoCheck(w.tt.Not(eq))
+			continue
+		}
 		if w.decideBool(eq, "mapkey@"+w.posLabel(fr, fr.curInstr)) {
 			return i
 		}
@@ -1254,4 +1261,47 @@ func (w *World) symIndexStr(fr *frame, s Str, idx *Term, it types.Type) *Term {
 		res = w.tt.Ite(w.tt.Eq(i64, w.tt.BV(64, uint64(k))), w.strAt(s, k), res)
 	}
 	return res
+}
+
+// hashDerived: v is a string/bytes value every bit of which comes out of an
+// uninterpreted hash/cipher function (free variables occur only inside UF
+// arguments), and at least one UF is involved.
+func (w *World) hashDerived(v Value) bool {
+	s, ok := v.(Str)
+	if !ok || s.tok != nil || s.opq || s.cat != nil || s.b == nil {
+		return false
+	}
+	any := false
+	for _, b := range s.b {
+		pure, has := w.ufOnly(b)
+		if !pure {
+			return false
+		}
+		any = any || has
+	}
+	return any
+}
+
+func (w *World) ufOnly(t *Term) (pure bool, hasUF bool) {
+	if w.ufMemo == nil {
+		w.ufMemo = map[uint32][2]bool{}
+	}
+	if r, ok := w.ufMemo[t.id]; ok {
+		return r[0], r[1]
+	}
+	pure, hasUF = true, false
+	switch t.op {
+	case OpVar:
+		pure = false
+	case OpUF:
+		hasUF = true
+	default:
+		for _, a := range t.a {
+			p, h := w.ufOnly(a)
+			pure = pure && p
+			hasUF = hasUF || h
+		}
+	}
+	w.ufMemo[t.id] = [2]bool{pure, hasUF}
+	return
 }
